@@ -45,7 +45,7 @@ class AppLab:
         rng = self.ctx.rng
         v6 = rng.random() < 0.5 if v6 is None else v6
         a = Ask()
-        a.e = e or gen.endp(rng, self.cfg, v6)
+        a.e = e or gen.endp(rng, self.cfg, v6, own_src=0.03)      # peers that are the responder's own addresses included
         a.sp = gen.rnd_port(rng) if sp is None else sp
         a.dp = gen.rnd_port(rng) if dp is None else dp
         a.payload, a.transport, a.bare_ack = payload, transport, False
